@@ -142,8 +142,11 @@ reg("C20",
 
 # clauses added during the build (rules that came out of the seeded-change rounds and of the defects found on the way)
 EXTRA = {
-    "C01": "forward-expansion memo lists are used with one set of matrices each and are reset with them",
-    "C03": "the smoother's backward recursion is contiguous (threshold guard, not a per-period quantity); per-period info series are stamped with the filtered periods",
+    "C02": "evaluation-point alignment of steady arrays (S + O = 0, lagged -1); derived descriptors are rebuilt when the log status changes",
+    "C01": "forward-expansion memo lists are used with one set of matrices each and are reset with them; the lagged state is read one period before the state "
+           "(evaluation-point alignment); simulators take the end of their window from the frame's simulation end",
+    "C03": "the smoother's backward recursion is contiguous (threshold guard, not a per-period quantity); per-period info series are stamped with the filtered periods; "
+           "every pass iterates all filtered periods; the deviation solution zeroes every additive constant",
     "C04": "the !all-but flag is recorded unconditionally; log status = listed XOR all-but (finite evaluation)",
     "C05": "a block is skipped only when it has no unknowns at all (truth table); prefetch accumulation order and order-preserving split of matched ids",
     "C06": "the terminal condition logs every column it reads; frames prune later surprises against the simulation end; per-variant loops use the variant",
@@ -152,9 +155,11 @@ EXTRA = {
     "C08": "smoother recursion contiguous; one expansion memo per representation; the per-variant loop uses the variant; one-shot iterators are consumed once",
     "C09": "memoised methods read only construction-time attributes; daily calendar forms agree with the calendar on finite evaluation",
     "C10": "trim arithmetic by finite evaluation over (rows, leading, trailing); one-shot iterators are consumed once",
-    "C12": "arip parameters are the average change per elapsed period; aggregation vectors as documented; `select` indexes positions",
+    "C12": "arip parameters are the average change per elapsed period; aggregation vectors as documented; `select` indexes calendar positions before missing "
+           "values are discarded; the arip system has the KKT structure (multiplier columns proportional to transposed constraint rows, F = K'K)",
     "C13": "keyword shifts: the Series and Period sides agree and the Series side reads the original span before mutating; shift-guard truth table",
-    "C14": "the filter object reused across variants is not mutated; every variant of the result is kept",
+    "C14": "the filter object reused across variants is not mutated; every variant of the result is kept and dated from the window start; the HP system is "
+           "lambda K'K bordered by the constraint rows and their transposes (finite evaluation)",
     "C16": "prefetch pairing order (finite evaluation of _split_ids); the failing path cannot yield a full permutation",
     "C17": "exogenized points are recognised by None-ness, not truthiness; the per-variant loop uses the variant",
     "C18": "per-variant loops never hand the container to a per-variant parameter",
